@@ -354,4 +354,36 @@ theorem fill_reaches (win : Win) (s : Screen) (hwf : s.WF) (c : Cell) (x y : Int
     simp only [fillOps, List.mem_flatMap, List.mem_map]
     exact ⟨y - (absOrigin win).2, (mem_upTo _ _).2 (by omega), x - (absOrigin win).1, (mem_upTo _ _).2 (by omega), rfl⟩
 
+/-! ### the window `New` creates -/
+
+theorem width_child (c r w h : Int) (p : Win) : (Win.child c r w h p).width = w := rfl
+theorem height_child (c r w h : Int) (p : Win) : (Win.child c r w h p).height = h := rfl
+
+/-- Whatever `New` clamps, the region of the new window is the requested rectangle (at the parent's
+origin + offset) intersected with the parent's region. -/
+theorem covers_new (win : Win) (c r W H : Int) (hW : 0 ≤ W) (hH : 0 ≤ H) (x y : Int) :
+    covers (win.new c r W H) x y ↔
+      (((absOrigin win).1 + c ≤ x ∧ x < (absOrigin win).1 + c + W ∧
+        (absOrigin win).2 + r ≤ y ∧ y < (absOrigin win).2 + r + H) ∧ covers win x y) := by
+  have hW' : ¬ W < 0 := by omega
+  have hH' : ¬ H < 0 := by omega
+  simp only [Win.new, covers, inOwnRect, absOrigin, width_child, height_child, hW', hH', if_false]
+  constructor
+  · rintro ⟨h1, h2⟩
+    have ho := covers_own win x y h2
+    unfold inOwnRect at ho
+    refine ⟨?_, h2⟩
+    by_cases a : W + c > win.width <;> by_cases b : H + r > win.height <;>
+      simp only [a, b, if_true, if_false] at h1 <;> omega
+  · rintro ⟨h1, h2⟩
+    have ho := covers_own win x y h2
+    unfold inOwnRect at ho
+    refine ⟨?_, h2⟩
+    by_cases a : W + c > win.width <;> by_cases b : H + r > win.height <;>
+      simp only [a, b, if_true, if_false] <;> omega
+
+theorem absOrigin_new (win : Win) (c r W H : Int) :
+    absOrigin (win.new c r W H) = ((absOrigin win).1 + c, (absOrigin win).2 + r) := by
+  simp [Win.new, absOrigin]
+
 end VaxisModel.Lemmas.Window
